@@ -196,6 +196,24 @@ func runC16(c *Ctx) {
 		if len(errs) > 0 {
 			return fmt.Sprintf("%s; output %.400q", strings.Join(errs[:min(len(errs), 3)], "; "), out), nontrivial
 		}
+		// one parser.Context handed to two conversions of the document (parser.WithContext): the
+		// second one must number and link its footnotes like the first
+		if len(d)%4 == 0 && nItems > 0 {
+			ctx := parser.NewContext()
+			var b1, b2 bytes.Buffer
+			func() {
+				defer func() { recover() }()
+				if m.md.Convert(d, &b1, parser.WithContext(ctx)) == nil && m.md.Convert(d, &b2, parser.WithContext(ctx)) == nil {
+					e2, d2, _, _ := footnoteErrors(m.cf.stripFnPrefix(b2.Bytes()))
+					if len(e2) > 0 || len(d2) > len(dangling) {
+						errs = append(errs, fmt.Sprintf("second conversion with the same parser.Context: %v dangling %v; output %.300q", e2, d2, b2.Bytes()))
+					}
+				}
+			}()
+			if len(errs) > 0 {
+				return fmt.Sprintf("%s; output %.400q", strings.Join(errs[:min(len(errs), 3)], "; "), out), nontrivial
+			}
+		}
 		if len(dangling) > 0 {
 			// the recorded finding: the missing reference lies in image alt text or in the body of
 			// a footnote that was itself removed (never referenced, or a duplicate definition)
